@@ -1,13 +1,14 @@
 CONSTANTS
-  MaxOps = 8
+  MaxOps = 7
   MaxDepth = 2
   Names = {"a", "b", "ab"}
   Classes = {"MA", "MB"}
-  InitStreams <- InitStreamsDef
-  ApplyCfgs <- ApplyCfgsFull
-  Lifts = {"none"}
+  InitStreams <- InitStreamsOne
+  ApplyCfgs <- ApplyCfgsMap
+  Lifts = {"none", "jit"}
   Separator = TRUE
   Hist = TRUE
+  Alphabet <- AlphabetJit
 SPECIFICATION Spec
 INVARIANT TypeOK
 INVARIANT FrozenOutside
